@@ -90,7 +90,7 @@ func NewCollectionReader(id string,
 		channelSeekPositions: seekPosition,
 		channelStartTs:       channelStartTs,
 		shouldReadFunc:       shouldReadFunc,
-		errChan:              make(chan error),
+		errChan:              make(chan error, 1), // one slot: the start-up scan may report an error before its consumer is receiving
 		retryOptions:         util.GetRetryOptions(readerConfig.Retry),
 	}
 	return reader, nil
